@@ -152,6 +152,7 @@ type Report struct {
 	Task int    `json:"task"`
 	OpIx int    `json:"op_ix"` // index of the enclosing operation record (-1: none, e.g. janitor)
 	Seq  uint64 `json:"seq"`
+	Now  int64  `json:"now"` // virtual time of the report
 }
 
 // Rec is one executed operation with its result.
@@ -178,6 +179,7 @@ type Rec struct {
 	Now      int64  `json:"now,omitempty"`   // virtual time at call
 	Nested   bool   `json:"nested,omitempty"`
 	CBID     int    `json:"cbid,omitempty"` // callback id installed by this op
+	Ticks    []int64 `json:"ticks,omitempty"` // Advance: the instants at which a janitor tick was delivered
 }
 
 func (r *Rec) String() string {
@@ -461,7 +463,7 @@ func (w *World) callback(kind int) (func(k int, v int64), int) {
 				break
 			}
 		}
-		w.reports = append(w.reports, Report{CB: id, K: k, V: v, Task: tid, OpIx: opIx, Seq: w.seq()})
+		w.reports = append(w.reports, Report{CB: id, K: k, V: v, Task: tid, OpIx: opIx, Seq: w.seq(), Now: w.sim.Now()})
 		if kind == 3 && !w.slowDone {
 			// a slow callback: the caller is frozen here until nobody else can move
 			w.slowDone = true
